@@ -4,7 +4,7 @@
    K in (c - D, c + D] with c = K p0 - e0; ParallelsIterator hands out the bands c = K start + j * a, a = +-2D, each
    exactly once (left: j = 1, 2, ...; right: j = 0, -1, ...), so different parallels are disjoint. *)
 From EG Require Import Base.Prelude Base.Lemmas Model.Geometry Model.Style Model.Line Model.Thickline
-                       Proofs.Geometry Proofs.Line Proofs.Thickline Proofs.ThicklineCheck.
+                       Proofs.Geometry Proofs.Line Proofs.Thickline.
 From Coq Require Import ZifyBool FinFun.
 
 Ltac Zify.zify_post_hook ::= Z.to_euclidean_division_equations.
@@ -387,17 +387,3 @@ Proof.
   unfold Kl in B1. destruct (sgnl_unit l) as [S|S]; rewrite S in B1; lia.
 Qed.
 
-(* the property's distance bound w/2 + 2.5 fails on the model (and on the implementation) from width 34 on *)
-Lemma thick_distance_refuted : exists l w ps p,
-  (34 <=? w) = true /\ thick_points l w = Some ps /\ In p ps /\ ~ dist_ok l w p.
-Proof.
-  exists (L (P 0 0) (P 24 11)), 34.
-  assert (H : match thick_points (L (P 0 0) (P 24 11)) 34 with
-              | Some ps => existsb (point_eqb (P 12 (-16))) ps | None => false end = true)
-    by (vm_compute; reflexivity).
-  destruct (thick_points (L (P 0 0) (P 24 11)) 34) as [ps|]; [|discriminate H].
-  exists ps, (P 12 (-16)). split; [reflexivity|]. split; [reflexivity|]. split.
-  - apply existsb_exists in H. destruct H as ([qx qy] & Hq & Eq). unfold point_eqb in Eq. cbn [px py] in Eq.
-    assert (qx = 12 /\ qy = -16) as [-> ->] by lia. exact Hq.
-  - intros [Hd _]. vm_compute in Hd. apply Hd. reflexivity.
-Qed.
